@@ -45,6 +45,24 @@ class C12(Monitor):
                                   got=s.exc['code'], want=bad)
                 elif not s.ok and not s.snap['closed'] and s.exc['type'] == 'InvalidSettingsValueError':
                     self.fail('valid-refused-local', '%s refused in-range values' % s.op, s, settings=dict(d))
+            elif s.op == 'initiate_upgrade_connection' and not e.client and (s.args or {}).get('_pairs') is not None:
+                # settings received in the HTTP2-Settings header of an h2c upgrade
+                pairs = s.args['_pairs']
+                if len(set(k for k, _ in pairs)) != len(pairs):
+                    return
+                bad = sorted(set(c for c in (verdict(k, v) for k, v in pairs) if c is not None))
+                if any(v in BOUNDARY for _, v in pairs) or bad:
+                    self.probe('boundary_value_upgrade_header')
+                    self.nontrivial = True
+                if bad:
+                    if s.ok:
+                        self.fail('invalid-accepted', 'an HTTP2-Settings header with an out-of-range value was accepted', s, settings=pairs)
+                    elif s.exc['code'] not in bad:
+                        self.fail('invalid-wrong-code', 'out-of-range value in the HTTP2-Settings header rejected with the wrong code', s,
+                                  got=s.exc['code'], want=bad, exc=s.exc['type'])
+                elif not s.ok:
+                    self.fail('valid-refused', 'an HTTP2-Settings header with in-range values was refused', s, settings=pairs,
+                              exc=s.exc['type'])
             return
         if s.snap['closed'] or not s.exact or s.quirk:
             return
